@@ -61,6 +61,20 @@ def run(ctx):
     for k in range(len(both) * (3 if ctx.thorough else 1)):
         jobs.append(dict(text=both[k % len(both)], opts=['--strategy', rng.choice(['hierarchical', 'hybrid']), '-j', str(rng.choice([1, 2]))],
                          cmd=[e2e.TOKPRED, 'sync', 'assert'], env={}))
+    # adversarial commands that accept exactly the listed inputs: what a mutator proposes for a node must not depend on which
+    # mutator asked for a sort first (a numeral is an index in one place and a term in another)
+    acc = [('(declare-const z Int)\n(assert (bvnot ((_ extract 8 1) y)))\n(check-sat-assuming ((+ 8 z)))\n',
+            ['(declare-const z Int)\n(assert ((_ extract 8 1) y))\n(check-sat-assuming ((+ 8 z)))\n',
+             '(declare-const z Int)\n(assert ((_ extract 8 1) y))\n(check-sat-assuming (1))\n'], ['--strategy', 'hierarchical']),
+           ('(declare-const z Int)\n(assert ((_ extract 8 1) y))\n(check-sat-assuming ((+ 16 z) (foo 5 16)))\n',
+            ['(declare-const z Int)\n(assert ((_ extract 8 1) y))\n(check-sat-assuming ((+ 8 z) (foo 5 8)))\n',
+             '(declare-const z Int)\n(assert ((_ extract 8 1) y))\n(check-sat-assuming (1 (foo 5 8)))\n'], ['--strategy', 'hybrid']),
+           ('(declare-const z Int)\n(assert (bvnot ((_ extract 8 1) y)))\n(check-sat-assuming ((+ 8 z)))\n',
+            ['(declare-const z Int)\n(assert ((_ extract 8 1) y))\n(check-sat-assuming ((+ 8 z)))\n',
+             '(declare-const z Int)\n(assert ((_ extract 8 1) y))\n(check-sat-assuming ((+ 0 z)))\n'],
+            ['--strategy', 'hierarchical', '--disable-all', '--constants', '--substitute-children'])]
+    for text, others, opts in acc:
+        jobs.append(dict(text=text, opts=opts + ['-j', '1'], cmd=[e2e.TOKPRED, 'set'] + [e2e.sh_digest(t) for t in [text] + others], env={}))
     for j in jobs:
         j['timeout'] = 600 if ctx.thorough else 240
         if not ctx.thorough and '--no-core' in j['opts']:
@@ -115,6 +129,9 @@ def run(ctx):
     built = [(j, hiermon.build(r.events)) for j, r in zip(jobs, runs) if not r.hung and r.rc == 0]
     good = [(j, b) for j, b in built if b is not None and 'error' not in b]
     for j, b in built:
+        if b is not None and b.get('fresh_names'):
+            ctx.count('histories not replayed: one candidate modulo fresh-variable names got two verdicts (F18; hashN commands look at the names)')
+            continue
         if b is not None and 'error' in b:
             ctx.disagree('scheduler history (reconstruction)', input=j['text'][:600], options=j['opts'], detail=b['error'])
     nact = 0
